@@ -21,6 +21,7 @@ CONSTANTS Fns,        \* which functions Next offers
           PauseToks, PauseShards,   \* tokens x shards the system contract may pause / unpause
           GasPoints,  \* the values of GasProvided offered for every call
           ExploreRejected, \* TRUE: rejected calls are explored too (totality of the reference operator)
+          AccSample,  \* one in AccSample of the accepted transitions is emitted (1 = all; larger graphs are sampled)
           RejSample,  \* one in RejSample of the rejected near-miss calls is emitted as well
           EmitTransitions, \* TRUE: print every explored transition (pre-state, call, verdict) as JSON for state-injection replay
           Bugs,       \* defect switches (self-test)
@@ -201,7 +202,8 @@ Finish(c, r, kind) ==
   /\ ev' = [a |-> e.a, fn |-> e.fn, caller |-> e.caller, rcpt |-> e.rcpt, res |-> e.res, sh |-> e.sh, gas |-> e.gas, ct |-> e.ct, mid |-> e.mid, rae |-> e.rae,
             args |-> [i \in 1..Len(e.args) |-> IF e.args[i].he THEN "" ELSE e.args[i].h]]   \* enough to replay the step on the real code
   /\ viol' = {n \in DirectNames \cap Checked : ~StepPred(n, w, e, r.w, h, r)}
-  /\ ((EmitTransitions /\ (r.ok \/ (kind = "exec" /\ Pre(c) /\ RandomElement(1..RejSample) = 1))) => PrintT(<<"TRANS", ToJson([w |-> w, res |-> e.res,
+  /\ ((EmitTransitions /\ ((r.ok /\ (AccSample = 1 \/ RandomElement(1..AccSample) = 1)) \/ (~r.ok /\ kind = "deliver")
+                                \/ (~r.ok /\ kind = "exec" /\ Pre(c) /\ RandomElement(1..RejSample) = 1))) => PrintT(<<"TRANS", ToJson([w |-> w, res |-> e.res,
                                 c |-> [a |-> e.a, fn |-> e.fn, caller |-> e.caller, rcpt |-> e.rcpt, res |-> e.res, sh |-> e.sh, gas |-> e.gas, ct |-> e.ct, mid |-> e.mid, rae |-> e.rae,
                                        args |-> [i \in 1..Len(e.args) |-> IF e.args[i].he THEN "" ELSE e.args[i].h]]])>>))
 
